@@ -221,31 +221,13 @@ Proof.
   destruct b as [|[|p ps]| | | | |]; reflexivity.
 Qed.
 
-Hypothesis NoPseudo : known_pseudo_grease h = false.
-
-Lemma mask_is_grease t : In t (ext_types h) -> grease_mask t = grease t.
-Proof.
-  intros Ht. unfold known_pseudo_grease in NoPseudo.
-  assert (Q : (N.land t 0x0f0f =? 0x0a0a) && negb (grease t) = false).
-  { destruct ((N.land t 0x0f0f =? 0x0a0a) && negb (grease t)) eqn:E; [|reflexivity].
-    assert (existsb (fun t => (N.land t 0x0f0f =? 0x0a0a) && negb (grease t)) (ext_types h) = true)
-      by (apply existsb_exists; now exists t). congruence. }
-  destruct (grease t) eqn:G; [now apply grease_mask_of_grease|].
-  unfold grease_mask. destruct (N.land t 3855 =? 2570); [discriminate | reflexivity].
-Qed.
+Lemma fst_view e : fst (view e) = fst e.
+Proof. unfold view. destruct (grease_mask (fst e)); reflexivity. Qed.
 
 Lemma extensions_eq : e_extensions st_h = non_grease (ext_types h).
 Proof.
   unfold st_h. rewrite fold_extensions. cbn [e_extensions ext_state0 app]. rewrite filter_grease_eq.
-  pose proof mask_is_grease as MG0. unfold ext_types in *. revert MG0.
-  induction (h_exts h) as [|e r IH]; intros MG; [reflexivity|].
-  cbn [map]. unfold non_grease. cbn [filter].
-  assert (G : grease (fst (view e)) = grease (fst e)).
-  { unfold view. rewrite MG by now left. destruct (grease (fst e)) eqn:G; [reflexivity | exact G]. }
-  rewrite G. destruct (grease (fst e)) eqn:G2; cbn [negb].
-  - apply IH. intros t Ht. apply MG. now right.
-  - unfold view at 1. rewrite MG by now left. rewrite G2. cbn [fst]. f_equal.
-    apply IH. intros t Ht. apply MG. now right.
+  unfold ext_types. rewrite map_map. f_equal. apply map_ext. apply fst_view.
 Qed.
 
 (* the version the code assigns *)
@@ -389,33 +371,22 @@ Qed.
 
 (* ---------- the version ---------- *)
 Lemma version_from_code m :
-  dtls_code m = false ->
   version_text (tls_version_from_code m) = version_chars m
   /\ Ja4.version_token (tls_version_from_code m) = Ja4Spec.version_token m.
 Proof.
-  unfold dtls_code. intros D. apply orb_false_elim in D as [D D3]. apply orb_false_elim in D as [D1 D2].
   unfold tls_version_from_code, Ja4Spec.version_token, version_chars.
   repeat match goal with
   | |- context [m =? ?k] =>
       let E := fresh "E" in
-      destruct (m =? k) eqn:E; [ first [split; reflexivity | congruence] | ]
+      destruct (m =? k) eqn:E; [ first [split; reflexivity | split; cbn [version_text Ja4.version_token]; rewrite ?E; reflexivity] | ]
   end.
-  split; reflexivity.
+  split; cbn [version_text Ja4.version_token]; repeat match goal with H : (m =? _) = false |- _ => rewrite H end; reflexivity.
 Qed.
 Lemma version_from_legacy v exts :
-  existsb (N.eqb 43) exts = false -> dtls_code v = false -> (v =? 2) = false ->
+  existsb (N.eqb 43) exts = false ->
   version_text (determine_tls_version v exts) = version_chars v
   /\ Ja4.version_token (determine_tls_version v exts) = Ja4Spec.version_token v.
-Proof.
-  intros X D T2. unfold dtls_code in D. apply orb_false_elim in D as [D D3]. apply orb_false_elim in D as [D1 D2].
-  unfold determine_tls_version, Ja4Spec.version_token, version_chars. rewrite X.
-  repeat match goal with
-  | |- context [v =? ?k] =>
-      let E := fresh "E" in
-      destruct (v =? k) eqn:E; [ first [split; reflexivity | congruence] | ]
-  end.
-  split; reflexivity.
-Qed.
+Proof. intros X. unfold determine_tls_version. rewrite X. apply version_from_code. Qed.
 
 Lemma find_body_none t l : find_body t l = None -> existsb (N.eqb t) (map fst l) = false.
 Proof.
@@ -441,10 +412,9 @@ Variable h : hello.
 Hypothesis W : wf h = true.
 Hypothesis NK : known h = false.
 
-Lemma nk_parts : known_alpn h = false /\ known_version h = false /\ known_pseudo_grease h = false.
-Proof.
-  unfold known in NK. apply orb_false_elim in NK as [N12 N3]. apply orb_false_elim in N12 as [N1 N2]. auto.
-Qed.
+Ltac nk_split := unfold known in NK; repeat (let H := fresh "NKx" in apply orb_false_elim in NK as [NK H]); assumption.
+Lemma nk_alpn : known_alpn h = false.
+Proof. nk_split. Qed.
 
 Lemma find43_versions b : find_body 43 (h_exts h) = Some b -> exists vs, b = BVersions vs.
 Proof.
@@ -458,13 +428,11 @@ Lemma version_eq :
   version_text (model_version h) = version_chars (version_code h)
   /\ Ja4.version_token (model_version h) = Ja4Spec.version_token (version_code h).
 Proof.
-  destruct nk_parts as (_ & KV & _). unfold model_version, version_code, known_version, legacy_corner in *.
+  unfold model_version, version_code.
   destruct (supported_versions h) as [vs|] eqn:SV.
   - replace (list_max (non_grease vs)) with (maximum (non_grease vs)) by reflexivity.
-    destruct (maximum (non_grease vs)) as [m|]; [now apply version_from_code|].
-    apply orb_false_elim in KV as [K1 K2]. now apply version_from_legacy.
-  - replace (list_max (non_grease [])) with (@None N) by reflexivity.
-    apply orb_false_elim in KV as [K1 K2]. now apply version_from_legacy.
+    destruct (maximum (non_grease vs)) as [m|]; [apply version_from_code | now apply version_from_legacy].
+  - replace (list_max (non_grease [])) with (@None N) by reflexivity. now apply version_from_legacy.
 Qed.
 
 Lemma sni_flag_eq :
@@ -483,7 +451,7 @@ Qed.
 Lemma alpn_field_eq :
   (match first_alpn h with Some p => from_utf8 p | None => None end) = first_alpn h.
 Proof.
-  destruct nk_parts as (KA & _ & _). unfold known_alpn in KA.
+  pose proof nk_alpn as KA. unfold known_alpn in KA.
   destruct (first_alpn h) as [[|b0 rest]|]; [reflexivity | | reflexivity].
   apply negb_false_iff in KA. apply andb_prop in KA as [_ KU].
   unfold from_utf8. now rewrite utf8_eq, KU.
@@ -553,7 +521,7 @@ Lemma a_eq :
           | Some a => first_last_alpn a | None => ("0"%byte, "0"%byte) end]
   = Ja4Spec.ja4_a h.
 Proof.
-  destruct nk_parts as (KA & KV & KP).
+  pose proof nk_alpn as KA.
   unfold Ja4Spec.ja4_a. rewrite (proj1 version_eq).
   pose proof (alpn_chars_eq h KA) as AL. cbv zeta in AL.
   f_equal. f_equal. f_equal; [apply sni_flag_eq|]. f_equal. f_equal. exact AL.
@@ -564,8 +532,7 @@ Lemma gen_eq orig :
   {| Ja4.ja4_a := Ja4Spec.ja4_a h; ja4_b := b_raw h orig; ja4_c := c_raw h orig;
      ja4_full := ja4_hashed h orig; ja4_raw := ja4_rawform h orig |}.
 Proof.
-  destruct nk_parts as (KA & KV & KP).
-  rewrite (sig_of_eq h W KP). unfold generate_ja4_with_order.
+  rewrite (sig_of_eq h W). unfold generate_ja4_with_order.
   cbn [s_version s_cipher_suites s_extensions s_signature_algorithms s_sni s_alpn].
   change filter_grease_values with non_grease. rewrite !non_grease_idem. cbv zeta.
   etransitivity.
@@ -587,9 +554,8 @@ Proof. unfold ja4_all, generate_ja4, generate_ja4_original. rewrite !gen_eq. ref
 
 Theorem sig_line_eq : sig_line (sig_of h) = Ja4Spec.line h.
 Proof.
-  destruct nk_parts as (KA & KV & KP).
   unfold sig_line, ja4_line. rewrite ja4_all_eq. unfold Ja4Spec.all, Ja4Spec.line, Ja4Spec.fields, sig_fields.
-  rewrite (sig_of_eq h W KP).
+  rewrite (sig_of_eq h W).
   cbn [s_version s_cipher_suites s_extensions s_signature_algorithms s_sni s_alpn s_elliptic_curves s_point_formats].
   rewrite (proj2 version_eq), alpn_field_eq.
   rewrite <- !app_assoc. reflexivity.
@@ -798,30 +764,23 @@ Example version_only_grease_now_conforms :
   wf w_ver1 = true /\ known w_ver1 = false
   /\ result_line (parse_tls_client_hello (encode_hello w_ver1)) = Ja4Spec.line w_ver1.
 Proof. repeat split; vm_compute; reflexivity. Qed.
-(* ... but the corner codes of the legacy field still apply on that path *)
+(* repaired (c04version): legacy 0x0002 prints s2 (also below an all-GREASE supported_versions), DTLS codes print d1/d2/d3 *)
 Definition w_ver1b : hello := hello_with 0x0002 [0x1301] [(43, BVersions [0x0a0a])].
-Lemma Known_version_only_grease_ssl2_refuted :
-  exists h, wf h = true /\ known_version h = true
-            /\ result_line (parse_tls_client_hello (encode_hello h)) <> Ja4Spec.line h.
-Proof. exists w_ver1b. split; [vm_compute; reflexivity|]. split; [vm_compute; reflexivity | refute]. Qed.
-(* K-version: legacy version 0x0002 (SSL 2.0): code "00", specification "s2" *)
 Definition w_ver2 : hello := hello_with 0x0002 [0x1301] [].
-Lemma Known_version_ssl2_refuted :
-  exists h, wf h = true /\ known_version h = true
-            /\ result_line (parse_tls_client_hello (encode_hello h)) <> Ja4Spec.line h.
-Proof. exists w_ver2. split; [vm_compute; reflexivity|]. split; [vm_compute; reflexivity | refute]. Qed.
-(* K-version: DTLS 1.2 code 0xfefd: code "00", specification table "d2" *)
 Definition w_ver3 : hello := hello_with 0xfefd [0x1301] [].
-Lemma Known_version_dtls_refuted :
-  exists h, wf h = true /\ known_version h = true
-            /\ result_line (parse_tls_client_hello (encode_hello h)) <> Ja4Spec.line h.
-Proof. exists w_ver3. split; [vm_compute; reflexivity|]. split; [vm_compute; reflexivity | refute]. Qed.
-(* K-ext: unassigned extension type 0x1a2a looks like GREASE to tls-parser: dropped from list and count *)
+Definition w_ver4 : hello := hello_with 0x0303 [0x1301] [(43, BVersions [0xfeff; 0x0a0a])].
+Lemma version_former_witnesses_agree :
+  forallb (fun h => wf h && negb (known h)
+                    && bytes_eqb (result_line (parse_tls_client_hello (encode_hello h))) (Ja4Spec.line h))
+          [w_ver1b; w_ver2; w_ver3; w_ver4] = true.
+Proof. vm_compute. reflexivity. Qed.
+
+(* repaired (c04grease): an unassigned extension type of the form 0x?a?a (here 0x1a2a) is listed and counted *)
 Definition w_ext1 : hello := hello_with 0x0303 [0x1301] [(0x1a2a, BRaw []); (23, BRaw [])].
-Lemma Known_pseudo_grease_refuted :
-  exists h, wf h = true /\ known_pseudo_grease h = true
-            /\ result_line (parse_tls_client_hello (encode_hello h)) <> Ja4Spec.line h.
-Proof. exists w_ext1. split; [vm_compute; reflexivity|]. split; [vm_compute; reflexivity | refute]. Qed.
+Lemma pseudo_grease_former_witness_agrees :
+  wf w_ext1 = true /\ known w_ext1 = false
+  /\ result_line (parse_tls_client_hello (encode_hello w_ext1)) = Ja4Spec.line w_ext1.
+Proof. repeat split; vm_compute; reflexivity. Qed.
 
 (* outside the domain (RFC 6066 host names are ASCII): an SNI host name that is not UTF-8 is reported
    as "no SNI" (flag i), while the specification's rule "SNI extension present" gives d *)
